@@ -1,4 +1,5 @@
 import Driver.StoreOps
+import Driver.ExecOps
 open Lean Driver
 
 def dispatch (j : Json) : P Json := do
@@ -6,6 +7,7 @@ def dispatch (j : Json) : P Json := do
   | "store" => opStore j
   | "slave" => opSlave j
   | "sctx" => opServerCtx j
+  | "exec" => opExec j
   | o => throw s!"bad-op {o}"
 
 def handle (line : String) : String :=
